@@ -71,7 +71,19 @@ impl Builder {
 
     fn uri_example_default(&self, uri: &spec::Uri) -> String {
         uri.pattern_with(|p| {
-            let t = match p.schema.expr {
+            // The type of a variable is the type of the schema it refers to.
+            let mut expr = &p.schema.expr;
+            let mut hops = 0;
+            while let SchemaExpr::Ref(name) = expr {
+                match self.spec.refs.get(name) {
+                    Some(spec::Reference::Schema(s)) if hops < self.spec.refs.len() => {
+                        expr = &s.expr;
+                        hops += 1;
+                    }
+                    _ => break,
+                }
+            }
+            let t = match expr {
                 SchemaExpr::Num(_) => "number",
                 SchemaExpr::Str(_) => "string",
                 SchemaExpr::Bool(_) => "boolean",
